@@ -515,7 +515,9 @@ func EVAL(ctx context.Context, ast MalType, env EnvType) (res MalType, e error) 
 				return do(ctx, tryDo, 0, 0, env)
 			}()
 
-			defer func() { _, _ = do(ctx, finallyDo, 0, 0, env) }()
+			// the finally body runs in the scope of the try form itself: the
+			// catch variable (bound in a child scope below) is not visible in it
+			defer func(env EnvType) { _, _ = do(ctx, finallyDo, 0, 0, env) }(env)
 
 			if e == nil {
 				return exp, nil
